@@ -297,7 +297,7 @@ PROPS["C08"] = dict(
                "512 KiB - 1 MiB stack limit) that force several invocations - an invocation the kernel rejected would show up as lost paths.",
     level_note="Trusted: TLC; the recorder. The batch boundaries are deliberately unconstrained. Only recorded runs (implementation -> spec); there is "
                "nothing for TLC to enumerate beyond what C09's model already covers.",
-    record=dict(quick=250, thorough=4000),
+    record=dict(quick=250, thorough=2000),
     selftest=dict(quick=30, thorough=100),
     trace=dict(module="trace/T_Exec.tla", cfg="trace/T_Exec.cfg"),
     trace_chunk=60,
@@ -376,13 +376,17 @@ PROPS["C06"] = dict(
 )
 
 _WALK_NOTE = ("Trusted: TLC; the harness's materialisation of tree values (mkdir/symlink) and the in-process call of find_main with captured "
-              "output. Unreadable directories cannot be produced as root in-process and are exercised by C11's fixture only. Link targets are "
+              "output. Directories that cannot be read are given permissions 000 and the real binary is run as uid 65534 (C02). Link targets are "
               "non-links or dangling (no link-to-link chains).")
 
 def _walk(flavour, text, rule, rq, rt):
+    mcs = [dict(module="mc/MC_Walk.tla", cfg=dict(quick="mc/MC_Walk_%s_quick.cfg" % flavour, thorough="mc/MC_Walk_%s_thorough.cfg" % flavour), xmx="16g")]
+    if flavour == "C02":
+        # directories that cannot be read (run as an unprivileged user): one error each, siblings and later starting points still visited
+        mcs.append(dict(module="mc/MC_Walk.tla", cfg=dict(quick="mc/MC_Walk_C02u_quick.cfg", thorough="mc/MC_Walk_C02u_thorough.cfg"), xmx="16g"))
     return dict(
         level_text=text, level_note=_WALK_NOTE,
-        mc=[dict(module="mc/MC_Walk.tla", cfg=dict(quick="mc/MC_Walk_%s_quick.cfg" % flavour, thorough="mc/MC_Walk_%s_thorough.cfg" % flavour), xmx="16g")],
+        mc=mcs,
         record=dict(quick=rq, thorough=rt), selftest=dict(quick=40, thorough=200),
         trace=dict(module="trace/T_Walk.tla", cfg="trace/T_Walk.cfg"), trace_chunk=800,
         rule=rule, exhaustive_note="bounded-exhaustive over trees up to N nodes", assumptions=[])
@@ -472,3 +476,13 @@ def m_H_delete_symlink_root(fail):
 def is_probe(fail):
     """C06: a direct execve probe (calibration of the kernel model), not a run of xargs."""
     return isinstance(fail.get("in"), dict) and fail["in"].get("mode") == "probe"
+
+
+def m_link_to_unreadable_dir(fail):
+    """C02: a followed symbolic link whose target is a directory that cannot be read."""
+    i = fail["in"]
+    t = i["tree"]
+    if i["cfg"].get("mode") not in ("L", "H"):
+        return False
+    bad = {k + 1 for k, n in enumerate(t) if n.get("noread")}
+    return any(n["kind"] == "l" and n.get("target") in bad for n in t)
